@@ -25,6 +25,8 @@ def signature(msg, case_lines):
         # uninitialised memory ...) and the VHDL side holds metavalues: the exported VHDL is more pessimistic about them than the
         # reference simulator (CASE ... OTHERS => 'X', numeric_std), and `X = '1'` is FALSE where the reference knows the value
         return "xprop:metavalue_where_reference_defined"
+    if what == "vhdl_runtime_error" and "out of range" in msg and "index" in msg:
+        return "vhdl_runtime_error:index_out_of_range"
     if what == "check_mismatch_uninitialised":
         return "power_on_value_missing:U_where_reference_defined"
     return "what:" + what + (":undefined_stimulus" if flag("undef") == "1" else "")
@@ -49,6 +51,7 @@ vlib.standard_check({
     # harness args after the seed: ncases nsteps flags
     #   flags: 1 hierarchy 2 reset kinds 4 clock edges 8 output modes 16 memories/tristate/wide arithmetic 32 undefined stimuli
     #          64 stimuli at power-on 128 bidirectional pins released with 'Z'
+    #          1024 out-of-range addresses of non power-of-two memories (not used: index error in VHDL, reported finding)
     #          256 clock frequencies whose period is not a whole number of ps 512 runs ending 100 ps behind a clock edge
     #   optional: only-case (-1 = all), long-run cycles (last stream: a few designs x 2500..3100 cycles)
     "streams": {"quick": [[1200, 25, 799], [300, 45, 799], [300, 20, 831], [200, 15, 991], [8, 8, 799, -1, 2500]],
